@@ -383,7 +383,7 @@ def impl_resolve(w, rs, data, stream=None):
     import signal
     fo = io.BytesIO(data) if stream is None else stream
     old = signal.signal(signal.SIGALRM, _alarm)
-    signal.setitimer(signal.ITIMER_REAL, 5)
+    signal.setitimer(signal.ITIMER_REAL, 20)
     try:
         v = schemaless_reader(fo, copy.deepcopy(w), copy.deepcopy(rs) if rs is not None else None)
     except _Timeout:
@@ -397,6 +397,10 @@ def impl_resolve(w, rs, data, stream=None):
     finally:
         signal.setitimer(signal.ITIMER_REAL, 0)
         signal.signal(signal.SIGALRM, old)
+        import impl as _impl
+        if _impl._WD["on"]:          # hand the timer back to the watchdog
+            signal.signal(signal.SIGALRM, _impl._wd_alarm)
+            signal.setitimer(signal.ITIMER_REAL, _impl._WD["period"], _impl._WD["period"])
     return {"ok": to_wire(v), "rest": (len(data) - fo.tell()) if stream is None else None}
 
 
